@@ -244,6 +244,20 @@ def fieldFeatures (parent : GoFeatures) (ov : Overrides) (packedOpt : Option Boo
   | some b => { f with isPacked := b }
   | none => f
 
+/-- The same field as `internal/filedesc` resolves it (`Field.unmarshalFull` → `unmarshalOptions`): the options are
+consumed in WIRE order, `packed` (field 2) before `features` (field 21) in canonical encodings, so here the
+`features` override is applied AFTER the legacy option. -/
+def filedescFieldFeatures (parent : GoFeatures) (ov : Overrides) (packedOpt : Option Bool) : GoFeatures :=
+  let p := match packedOpt with
+    | some b => { parent with isPacked := b }
+    | none => parent
+  mergeGo p ov
+
+/-- `IsLazy()` of an extension: `filedesc.(*Extension).unmarshalOptions` records `lazy`,
+`protodesc.initExtensionDeclarations` never sets `x.L1.IsLazy`. -/
+def filedescExtIsLazy (lazyOpt : Bool) : Bool := lazyOpt
+def protodescExtIsLazy (_lazyOpt : Bool) : Bool := false
+
 /-- `if f.L1.EditionFeatures.IsLegacyRequired { f.L1.Cardinality = Required }` (message fields only). -/
 def cardinalityOf (label : Nat) (f : GoFeatures) (isExtension : Bool) : Nat :=
   if !isExtension && f.isLegacyRequired then cRequired else label
